@@ -93,7 +93,10 @@ def run_tensor(item):
     rng = random.Random(sd)
     rel = related(kind, bks, U, L)
     rng.shuffle(rel)
+    antisym_diag = bks == -1 and sorted(map(str, U)) == sorted(map(str, L))
     for (u2, l2, sg) in rel[:6]:
+        if antisym_diag:
+            break       # bra-ket antisymmetric diagonal: not among the zeros the property lists
         o2 = C("d", u2, l2, bks)
         if o2 != sg * obj:
             res["det"].append(f"{C.__name__}('d', {u2}, {l2}, {bks}) = {o2} but expected {sg} * {obj}")
@@ -234,123 +237,7 @@ def run_assumption(item):
     return res
 
 
-def ch_conditions(tier):
-    tmo = 300 if tier == "quick" else 1800
-    nbk = srcgen.regenerate("adcgen/sympy_objects.py", "AntiSymmetricTensor._need_bra_ket_swap",
-                            new_name="k_need_swap")
-    sic = srcgen.regenerate("adcgen/indices.py", "sort_idx_canonical", new_name="k_sort_key")
-    pak = srcgen.regenerate("adcgen/sympy_objects.py", "KroneckerDelta.preferred_and_killable",
-                            new_name="k_pref_kill")
-    prelude_cls = '''
-class Index:
-    def __init__(self, sp, spin, letter, num):
-        self.space = ["occ", "virt", "general"][sp]
-        self.spin = ["", "a", "b"][spin]
-        self.name = "ijabpq"[letter] + ("" if num == 0 else str(num))
-        self.key = (self.space[0], self.spin, num, "ijabpq"[letter])
-    def __hash__(self):
-        return 0
-    def __eq__(self, other):
-        return isinstance(other, Index) and self.key == other.key
-
-class _D:
-    def __init__(self, i, j):
-        self.args = (i, j)
-'''
-    conds = []
-
-    def add(name, src, reach=True, timeout=tmo):
-        conds.append(chrun.Condition(name, src, timeout=timeout))
-        if reach:
-            conds.append(chrun.Condition(name + "__reach", chrun.twin(src, name),
-                                         timeout=90, expect="refuted"))
-    # rank 1|1: all four attributes symbolic
-    h1 = prelude_cls + nbk + '''
-
-def h_swap11(s1: int, p1: int, l1: int, n1: int, s2: int, p2: int, l2: int, n2: int) -> bool:
-    """
-    pre: 0 <= s1 < 3 and 0 <= s2 < 3 and 0 <= p1 < 3 and 0 <= p2 < 3
-    pre: 0 <= l1 < 6 and 0 <= l2 < 6 and 0 <= n1 <= 11 and 0 <= n2 <= 11
-    post: _
-    """
-    u, l = [Index(s1, p1, l1, n1)], [Index(s2, p2, l2, n2)]
-    a, b = k_need_swap(None, u, l), k_need_swap(None, l, u)
-    ku, kl = [x.key for x in u], [x.key for x in l]
-    if a and b:
-        return False
-    if ku == kl:
-        return not a and not b
-    # documented order: space, then spin, then (number, letter); the smaller one is upper
-    want_swap = ([k[0] for k in kl], [k[1] for k in kl], [(k[2], k[3]) for k in kl]) < \\
-        ([k[0] for k in ku], [k[1] for k in ku], [(k[2], k[3]) for k in ku])
-    return a == want_swap and b == (not want_swap)
-'''
-    add("swap11", h1)
-    # rank 2|2: spaces and spins symbolic, names concrete per condition family
-    for tag, names in (("plain", ((0, 0), (1, 0), (0, 0), (1, 0))), ("num", ((0, 2), (0, 10), (1, 0), (0, 3)))):
-        (la, na), (lb, nb), (lc, nc), (ld, nd) = names
-        h2 = prelude_cls + nbk + f'''
-
-def h_swap22_{tag}(s1: int, s2: int, s3: int, s4: int, p1: int, p2: int, p3: int, p4: int) -> bool:
-    """
-    pre: 0 <= s1 < 3 and 0 <= s2 < 3 and 0 <= s3 < 3 and 0 <= s4 < 3
-    pre: 0 <= p1 < 3 and 0 <= p2 < 3 and 0 <= p3 < 3 and 0 <= p4 < 3
-    post: _
-    """
-    u = [Index(s1, p1, {la}, {na}), Index(s2, p2, {lb}, {nb})]
-    l = [Index(s3, p3, {lc}, {nc}), Index(s4, p4, {ld}, {nd})]
-    a, b = k_need_swap(None, u, l), k_need_swap(None, l, u)
-    ku, kl = [x.key for x in u], [x.key for x in l]
-    if a and b:
-        return False
-    if ku == kl:
-        return not a and not b
-    want_swap = ([k[0] for k in kl], [k[1] for k in kl], [(k[2], k[3]) for k in kl]) < \\
-        ([k[0] for k in ku], [k[1] for k in ku], [(k[2], k[3]) for k in ku])
-    return a == want_swap and b == (not want_swap)
-'''
-        add(f"swap22_{tag}", h2, reach=(tag == "plain"))
-    h3 = prelude_cls + sic + '''
-
-def h_sortkey(s1: int, p1: int, l1: int, n1: int, s2: int, p2: int, l2: int, n2: int) -> bool:
-    """
-    pre: 0 <= s1 < 3 and 0 <= s2 < 3 and 0 <= p1 < 3 and 0 <= p2 < 3
-    pre: 0 <= l1 < 6 and 0 <= l2 < 6 and 0 <= n1 <= 11 and 0 <= n2 <= 11
-    post: _
-    """
-    x, y = Index(s1, p1, l1, n1), Index(s2, p2, l2, n2)
-    kx, ky = k_sort_key(x), k_sort_key(y)
-    # injective on (space, spin, number, letter) and lexicographic in that order
-    if (kx == ky) != (x.key == y.key):
-        return False
-    return (kx < ky) == (x.key < y.key)
-'''
-    add("sortkey", h3)
-    h4 = prelude_cls + pak + '''
-
-def h_prefkill(s1: int, p1: int, s2: int, p2: int) -> bool:
-    """
-    pre: 0 <= s1 < 3 and 0 <= s2 < 3 and 0 <= p1 < 3 and 0 <= p2 < 3
-    post: _
-    """
-    i, j = Index(s1, p1, 0, 0), Index(s2, p2, 1, 0)
-    r = k_pref_kill(_D(i, j))
-    def info(x):
-        return (0 if x.space == "general" else 1, 0 if x.spin == "" else 1)
-    (a1, b1), (a2, b2) = info(i), info(j)
-    i_dom = a1 >= a2 and b1 >= b2
-    j_dom = a2 >= a1 and b2 >= b1
-    if r is None:
-        return not i_dom and not j_dom
-    pref, kill = r
-    if {id(pref), id(kill)} != {id(i), id(j)}:
-        return False
-    pa, pb = info(pref)
-    ka, kb = info(kill)
-    return pa >= ka and pb >= kb
-'''
-    add("prefkill", h4)
-    return conds
+from vlib.ch_c06 import ch_conditions  # noqa: E402
 
 
 def main():
@@ -379,7 +266,7 @@ def main():
     run = Run("C06", a.tier, "translation_validation")
     from concurrent.futures import ThreadPoolExecutor
     ex = ThreadPoolExecutor(max_workers=1)
-    fut = ex.submit(chrun.run_conditions, ch_conditions(a.tier), "", 6)
+    fut = ex.submit(chrun.run_conditions, ch_conditions(a.tier), "", 8)
     rng = random.Random(seed() * 31 + 6)
     titems = []
     shapes = [(1, 1), (2, 2), (2, 1), (1, 2), (3, 3)] if not quick else [(1, 1), (2, 2), (2, 1), (3, 3)]
@@ -439,7 +326,7 @@ def main():
         "tensors": "classes AntiSymmetric/Symmetric/Amplitude x bra-ket 0/+1/-1 x ranks 1|1 (all pairs" + (" sampled" if quick else "") + "), 2|2, 2|1, 3|3 (sampled); models 2o2v / 2o2v x {a,b}",
         "deltas": "all pairs of the pool",
         "assumptions": f"{n_as} generated expressions: make_real, set_sym_tensors, set_antisym_tensors, constructor arguments",
-        "crosshair": "rank 1|1 with space, spin, letter (6) and number (0..11) symbolic; rank 2|2 with spaces and spins symbolic for two fixed name patterns; all 81 attribute pairs for preferred_and_killable",
+        "crosshair": "rank 1|1: spins and names (from a list of 5, thorough 8, incl. numbered names 2 vs 10) symbolic for every pair of spaces; rank 2|2: spaces and spins symbolic for 2 (3) fixed name patterns; preferred_and_killable: all attribute pairs of non-vanishing deltas",
         "z3_timeout_ms": TIMEOUT}
     run.cov["rule"] = "exhaustive / seeded enumeration of raw index tuples; non-trivial = non-zero object; distinct = distinct constructor calls"
     run.assumptions += [
